@@ -115,7 +115,7 @@ def write_replay(prop, replay):
     return path
 
 
-def run_replay_file(path, timeout=120):
+def run_replay_file(path, timeout=60):
     """Run a replay in a clean interpreter against the real, unpatched code.
     Returns (code, output): 0 property holds on this case, 1 violated (reproduced), else error."""
     env = dict(os.environ)
